@@ -134,6 +134,10 @@ def check_one(version, hist, line) -> list:
                   f"{n_};{c_};0;0;3;d", f"{n_};255;3;0;0;50", f"{n_};255;3;0;11;s", f"{n_};255;4;0;0;fw"]
         if n_ == "0":
             follow += ["0;255;3;0;2;2.2", "0;255;3;0;2;2.1.1"]  # the gateway then reports its version
+        if fl[2] == "0":
+            # a presentation (whatever it carried as type, version string or description): then every
+            # internal message type from that node with an ordinary payload
+            follow += [f"{n_};255;3;0;{t};{p}" for t in range(0, 34) if t not in (0, 11) for p in (("1500",) if t != 2 else ("2.1",))]
         for fline in follow:
             o = s.line(fline)
             if o.kind == "raise" and not isinstance(o.exc, AIOMySensorsError):
@@ -149,6 +153,35 @@ def check_one(version, hist, line) -> list:
         node = s.gateway.nodes.get(9)
         if node is None or 3 not in node.children or node.children[3].values.get(2) != "on":
             bad("unusable-after", "probe messages were yielded but are not in the registry")
+    return viols
+
+
+CAPACITY_LINES = ["255;255;3;0;3;", "1;255;3;0;3;", "0;255;3;0;3;", "255;255;3;0;3;x", "254;255;0;0;17;2.0", "0;255;0;0;18;2.0", "255;255;0;0;17;2.0",
+                  "200;3;1;0;2;on", "1;255;3;0;0;50", "255;255;3;0;4;7"]
+
+
+def capacity_case(j) -> list:
+    """Registries at and next to capacity, filled by id requests or by presentations, with and without the
+    gateway's own node 0: id requests and neighbouring traffic must give a message or a library error."""
+    version, how, lo, hi = j
+    viols = []
+    s = Session(version)
+    for n in range(lo, hi + 1):
+        o = s.line("255;255;3;0;3;" if how == "idreq" else f"{n};255;0;0;17;2.0")
+        if o.kind == "raise" and not isinstance(o.exc, AIOMySensorsError):
+            viols.append((f"C03|capacity-foreign-exception:{type(o.exc).__name__}|3/3", f"[version {version}] filling the registry ({how} #{n - lo + 1} of {hi - lo + 1}) raised {type(o.exc).__name__}: {o.exc}", {"capacity": list(j)}))
+            return viols
+    for rnd in range(3):
+        for line in CAPACITY_LINES:
+            o = s.line(line)
+            if o.kind == "raise" and not isinstance(o.exc, AIOMySensorsError):
+                viols.append((f"C03|capacity-foreign-exception:{type(o.exc).__name__}|{line.split(';')[2]}/{line.split(';')[4]}", f"[version {version}] registry filled by {how} with ids {lo}..{hi} ({len(s.gateway.nodes)} nodes), round {rnd}: line {line!r} raised {type(o.exc).__name__}: {o.exc}", {"capacity": list(j)}))
+                return viols
+    for f in PROBE:
+        o = s.line(R.enc(*f).rstrip("\n"))
+        if o.kind != "yield" or o.fields != f:
+            viols.append(("C03|capacity-unusable-after|*", f"[version {version}] registry filled by {how} with ids {lo}..{hi}: afterwards the well-formed line {R.enc(*f)!r} gave {o.describe()}", {"capacity": list(j)}))
+            break
     return viols
 
 
@@ -343,9 +376,12 @@ def run(ctx: core.Ctx) -> core.Report:
     bres = core.pmap(job_bytes, bchunks, ctx.workers, chunksize=1)
     hjobs = [(v, byte_histories(v)) for v in [None, *R.VERSIONS]]
     bres += core.pmap(job_byte_histories, hjobs, ctx.workers, chunksize=1)
+    cjobs = [(v, how, lo, hi) for v in versions for how, lo, hi in (("idreq", 1, 254), ("idreq", 1, 253), ("present", 1, 254), ("present", 0, 254), ("present", 0, 253), ("present", 2, 254), ("present", 0, 255))]
+    cres = core.pmap(capacity_case, cjobs, ctx.workers, chunksize=1)
     total = sum(r[0] for r in res)
     btotal = sum(r[0] for r in bres)
     viols = [core.Violation(k, w, rep) for r in res + bres for k, w, rep in r[1]]
+    viols += [core.Violation(k, w, rep) for r in cres for k, w, rep in r]
     cov = {
         "states": nstates,
         "transitions": total * (1 + len(PROBE)) + btotal,
@@ -353,7 +389,8 @@ def run(ctx: core.Ctx) -> core.Report:
         "exhaustive": True,
         "hostile_lines": len(lines),
         "byte_streams": btotal,
-        "rule": "controller states = all distinct states reachable in <= 2/3 set-up events (BFS, canonical form) per version incl. unknown; in every state every line of the hostile alphabet is delivered to a real Gateway.listen step, followed by a 3-line usability probe; byte level: every byte string up to length L over 6 byte values through real StreamReader -> TCPTransport.read -> Gateway.listen; plus multi-line byte histories with 9 hostile byte payloads in 7 stored/echoed slots followed by lines that echo them (req, config, wake, id request) and the probe, per version",
+        "capacity_histories": len(cjobs),
+        "rule": "controller states = all distinct states reachable in <= 2/3 set-up events (BFS, canonical form) per version incl. unknown; in every state every line of the hostile alphabet is delivered to a real Gateway.listen step, followed (for presentations and rejected lines) by well-formed traffic about the same node incl. every internal type, and by a 3-line usability probe; registries filled to and next to capacity (by id requests / presentations, with and without node 0) x id requests and neighbouring lines; byte level: every byte string up to length L over 6 byte values through real StreamReader -> TCPTransport.read -> Gateway.listen; plus multi-line byte histories with 9 hostile byte payloads in 7 stored/echoed slots followed by lines that echo them (req, config, wake, id request) and the probe, per version",
         "bounds": {"versions": versions, "setup_depth": 3 if ctx.quick else 4, "byte_len": L},
         "samples": sample_states[:2] + [{"line": lines[ctx.seed % len(lines)]}, {"bytes": streams[-4].hex()}],
     }
@@ -366,7 +403,9 @@ def run(ctx: core.Ctx) -> core.Report:
 
 
 def replay(data: dict) -> dict:
-    if "bytes_history" in data:
+    if "capacity" in data:
+        v = capacity_case(tuple(data["capacity"]))
+    elif "bytes_history" in data:
         v = check_byte_history(data["version"], bytes.fromhex(data["bytes_history"]))
     elif "bytes" in data:
         v = check_bytes(bytes.fromhex(data["bytes"]))
